@@ -691,11 +691,10 @@ class BinTableBitarray(AbstractBinTable):
         else:
             vals = [0] * len(columns)
 
-            columns_set = set(columns)
-            mask = fbarray([j in columns_set for j in range(self.width)])
             for i in rows:
-                for j in (self.data[i] & mask).search(1):
-                    vals[j] += 1
+                row = self.data[i]
+                for pos, j in enumerate(columns):
+                    vals[pos] += row[j]
 
         return vals
 
